@@ -107,7 +107,12 @@ def _classify_path(ctx, func, expr, _depth=0):
         if isinstance(expr.op, ast.Add) and l == "final":
             return "temp", expr.left
         if isinstance(expr.op, ast.Div):
-            return "final", None
+            # directory / <key part> is an entry path; directory / <other> is not
+            # a sibling derived from the entry and cannot be classified
+            names = {x.id for x in ast.walk(expr.right) if isinstance(x, ast.Name)}
+            if names & {"k", "key"}:
+                return "final", None
+            return "unknown", None
         return "unknown", None
     if isinstance(expr, ast.JoinedStr):
         for v in expr.values:
@@ -169,6 +174,37 @@ def rule_atomic(ctx):
                     continue
                 if _classify_path(ctx, f, dst)[0] == "final":
                     reps.append(n.id)
+            # the move must happen after the file is closed: not inside the
+            # ``with open(tmp)`` body (data may still sit in the write buffer)
+            early = None
+            wnode = None
+            cur = f.module.parents.get(call)
+            while cur is not None and cur is not f.node:
+                if isinstance(cur, (ast.With, ast.AsyncWith)) and any(
+                        it.context_expr is call for it in cur.items):
+                    wnode = cur
+                cur = f.module.parents.get(cur)
+            if wnode is not None:
+                for n2, c2 in fl.calls():
+                    if n2.id in reps and any(x is c2 for b in wnode.body for x in ast.walk(b)):
+                        closed_before = any(
+                            isinstance(x, ast.Call) and isinstance(x.func, ast.Attribute)
+                            and x.func.attr == "close" and x.lineno < c2.lineno
+                            for b in wnode.body for x in ast.walk(b))
+                        if not closed_before:
+                            early = c2
+            else:
+                # open() without a with-block: require an explicit close before the move
+                closes = [n2.id for n2, c2 in fl.calls() if isinstance(c2.func, ast.Attribute)
+                          and c2.func.attr == "close"]
+                for rid in reps:
+                    if not any(fl.cfg.dominates(cid, rid) for cid in closes):
+                        early = fl.cfg.nodes[rid].ast
+            if early is not None:
+                r.violation(key, C.loc(f, early), "the temporary is moved onto the entry path "
+                            "before it is closed: the published entry can be empty/truncated if "
+                            "the writer dies before the buffered data is flushed")
+                continue
             if reps and fl.cfg.all_paths_pass(cn.id, reps):
                 r.ok(key, where, "temporary sibling written, then moved onto the entry path "
                      "on every normal path", opened=C.unparse(pexpr))
